@@ -732,6 +732,20 @@ fn as_char<'de, 's, R: Read<'de> + ?Sized>(read: &R, value: u32) -> Result<char>
     }
 }
 
+/// Converts the value of an escape with an arbitrary number of digits to a
+/// character. A surrogate code point may still grow into a scalar value with
+/// the next digit (`D800` is a prefix of `D8000`), so at the end of the input
+/// it is a truncated token, reported as an EOF like the others.
+fn open_ended_char<'de, R: Read<'de> + ?Sized>(read: &mut R, value: u32) -> Result<char> {
+    match char::from_u32(value) {
+        Some(c) => Ok(c),
+        None if (0xD800..=0xDFFF).contains(&value) && read.peek()?.is_none() => {
+            error(read, ErrorCode::EofWhileParsingCharacterConstant)
+        }
+        None => error(read, ErrorCode::InvalidUnicodeCodePoint),
+    }
+}
+
 /// At the end of input, a lone `.` or a multi-byte character that has been
 /// cut short may still become a symbol once more input arrives.
 fn is_truncated_symbol(bytes: &[u8]) -> bool {
@@ -999,10 +1013,7 @@ fn parse_r6rs_char<'de, R: Read<'de> + ?Sized>(
     let initial = next_or_eof_char(read)?;
     if initial == b'x' {
         match decode_r6rs_char_hex_escape(read)? {
-            Some(n) => match char::from_u32(n) {
-                Some(c) => Ok(c),
-                None => error(read, ErrorCode::InvalidUnicodeCodePoint),
-            },
+            Some(n) => open_ended_char(read, n),
             None => Ok('x'),
         }
     } else if initial > 0x7F {
@@ -1178,11 +1189,11 @@ fn decode_elisp_char_escape<'de, R: Read<'de> + ?Sized>(
         }
         b'x' => {
             // Hexadecimal escape, allows arbitrary number of hex digits.
-            decode_elisp_hex_escape(read).and_then(|n| as_char(read, n))
+            decode_elisp_hex_escape(read).and_then(|n| open_ended_char(read, n))
         }
         b'0' | b'1' | b'2' | b'3' | b'4' | b'5' | b'6' | b'7' => {
             // Octal escape, allows arbitrary number of octale digits.
-            decode_elisp_octal_escape(read, ch).and_then(|n| as_char(read, n))
+            decode_elisp_octal_escape(read, ch).and_then(|n| open_ended_char(read, n))
         }
         next => {
             if next > 0x7F {
